@@ -8,7 +8,7 @@ import (
 )
 
 // StallTimeout is the client timeout of cases in which the server goes silent.
-const StallTimeout = 250 * time.Millisecond
+const StallTimeout = 600 * time.Millisecond
 
 // TimeoutFor: cases in which the server goes silent run with a short timeout, all others must never wait.
 func TimeoutFor(c Case) time.Duration {
